@@ -132,6 +132,10 @@ func ValidateAttribute(a PathAttributeInterface, rfs map[Family]BGPAddPathMode, 
 			}
 		}
 	case *PathAttributeNextHop:
+		if !p.Value.IsValid() {
+			// the attribute failed to decode; that error is already recorded
+			break
+		}
 
 		isZero := func(ip net.IP) bool {
 			res := ip[0] & 0xff
